@@ -1,11 +1,17 @@
 import datetime
 import decimal
 import functools
+import itertools
 import math
 import re
 
 from ckl.errors import CklRuntimeError
 from ckl.date import to_oa_date, to_date
+
+# values that are equal only to themselves (functions, streams) are numbered
+# in the order of their creation; the number decides their order when their
+# renderings are the same
+_serial = itertools.count()
 
 
 class Args:
@@ -872,6 +878,7 @@ class ValueFunc(Value):
     def __init__(self, name):
         self.name = name
         self.secure = True
+        self.serial = next(_serial)
 
     def __hash__(self):
         return hash(self.name)
@@ -880,7 +887,10 @@ class ValueFunc(Value):
         return self is other
 
     def __lt__(self, other):
-        return str(self) < str(other)
+        a, b = str(self), str(other)
+        if a == b and isinstance(other, ValueFunc):
+            return self.serial < other.serial
+        return a < b
 
     def __repr__(self):
         return f"<#{self.name}>"
@@ -903,6 +913,7 @@ class ValueInput(Value):
     def __init__(self, input_):
         self.input = input_
         self.closed = False
+        self.serial = next(_serial)
 
     def __hash__(self):
         return hash("input")
@@ -911,7 +922,10 @@ class ValueInput(Value):
         return self is other
 
     def __lt__(self, other):
-        return str(self) < str(other)
+        a, b = str(self), str(other)
+        if a == b and isinstance(other, ValueInput):
+            return self.serial < other.serial
+        return a < b
 
     def __repr__(self):
         return "<!input-stream>"
@@ -1379,6 +1393,7 @@ class ValueOutput(Value):
     def __init__(self, output):
         self.output = output
         self.closed = False
+        self.serial = next(_serial)
 
     def __hash__(self):
         return hash("output")
@@ -1387,7 +1402,10 @@ class ValueOutput(Value):
         return self is other
 
     def __lt__(self, other):
-        return str(self) < str(other)
+        a, b = str(self), str(other)
+        if a == b and isinstance(other, ValueOutput):
+            return self.serial < other.serial
+        return a < b
 
     def __repr__(self):
         return "<!output-stream>"
